@@ -69,7 +69,7 @@ try:
             rcc, oc = sh("/verif/bin/vsim check %s --tier %s --budget %d" % (c, a.tier, a.budget), cwd="/verif", env=env, timeout=a.budget * 6 + 900)
             viol = [l for l in oc.splitlines() if l.startswith("VIOLATION") or l.startswith("  sig=")]
             summ = [l for l in oc.splitlines() if l.startswith("SUMMARY")]
-            meta["checks"][c] = {"exit": rcc, "detected": rcc == 1, "violation": viol[:2], "summary": summ[-1:] }
+            meta["checks"][c] = {"exit": rcc, "detected": rcc == 1 and any(l.startswith("VIOLATION") for l in viol), "violation": viol[:2], "summary": summ[-1:] }
             for l in viol[:1]:
                 rp = l.split("replay=")[-1].strip()
                 if os.path.exists(rp):
